@@ -12,6 +12,8 @@ package mon
 //	    layIsCompileError(err) to tell them apart (or compile first with mon.compile).
 //	layCompileOpts(engine, text, *d2svg.RenderOpts)   same with render options (theme, sketch, pad …)
 //	layRender(d *d2target.Diagram) ([]byte, error)     d2svg.Render with default options
+//	layLayoutBoard(engine, g *d2graph.Graph) error     lay out one compiled board in place (theme, dimensions,
+//	    LayoutNested) without export — for before/after comparisons on the same graph
 //	layBoards(d, g) []layBoard                          root board + layers/scenarios/steps, recursively,
 //	    each with its board path, its exported diagram and its laid-out graph (paired by index).
 //	    In one board, D.Shapes[i] is the export of G.Objects[i] and D.Connections[i] of G.Edges[i].
@@ -61,10 +63,13 @@ import (
 	"io"
 	"log/slog"
 	"math"
+	"os"
+	"strconv"
 	"strings"
 	"sync"
 
 	"oss.terrastruct.com/d2/d2graph"
+	"oss.terrastruct.com/d2/d2layouts"
 	"oss.terrastruct.com/d2/d2layouts/d2dagrelayout"
 	"oss.terrastruct.com/d2/d2layouts/d2elklayout"
 	"oss.terrastruct.com/d2/d2lib"
@@ -117,6 +122,31 @@ func layCompileOpts(engine, text string, ro *d2svg.RenderOpts) (*d2target.Diagra
 		LayoutResolver: layResolver,
 		Ruler:          layRuler,
 	}, ro)
+}
+
+// layLayoutBoard lays out ONE compiled board in place, exactly like d2lib.compile does for it
+// (ApplyTheme(0) → SetDimensions(ruler) → d2layouts.LayoutNested(engine, DefaultRouter)), without
+// export and without descending into layers/scenarios/steps. For monitors that need the graph
+// before and after layout (C18).
+func layLayoutBoard(engine string, g *d2graph.Graph) error {
+	layRulerOnce.Do(func() { layRuler, layRulerErr = textmeasure.NewRuler() })
+	if layRulerErr != nil {
+		panic("harness: textmeasure.NewRuler: " + layRulerErr.Error())
+	}
+	if err := g.ApplyTheme(0); err != nil {
+		return err
+	}
+	if len(g.Objects) == 0 {
+		return nil
+	}
+	if err := g.SetDimensions(nil, layRuler, nil, nil); err != nil {
+		return err
+	}
+	core, err := layResolver(engine)
+	if err != nil {
+		return err
+	}
+	return d2layouts.LayoutNested(layCtx(), g, d2layouts.NestedGraphInfo(g.Root), core, d2layouts.DefaultRouter)
 }
 
 // layIsCompileError: the error comes from parsing/compiling (not from layout or export).
@@ -498,6 +528,11 @@ func layGenCases(seed int64, tier string, salt int64, nDagre, nElk, mult int, op
 	if tier == "thorough" {
 		nDagre *= mult
 		nElk *= mult
+	}
+	// development knob (mutant validation on a loaded machine): VERIF_LAY_DIV=n keeps the first
+	// 1/n of each engine's list. Unset in every recorded run.
+	if v, err := strconv.Atoi(os.Getenv("VERIF_LAY_DIV")); err == nil && v > 1 {
+		nDagre, nElk = (nDagre+v-1)/v, (nElk+v-1)/v
 	}
 	r := gen.New(seed*1000003 + salt)
 	id := 0
